@@ -1,2 +1,25 @@
+(* C01 property theorems.  Nothing but statements closed by `exact`, each followed by Print Assumptions.
+   Every statement is a conjunction with one clause per overload body of Model.v:
+   "for all big-integer operands and all word operands in the C type's range, the body = the Z operation". *)
 From Coq Require Import ZArith.
-From C01 Require Import Model ProofsArith.
+From C01 Require Import Model ProofsBase ProofsAdd ProofsSub ProofsMul.
+Local Open Scope Z_scope.
+
+Theorem C01_constructors_exact : Ctor_exact.            Proof. exact ctor_exact. Qed.
+Print Assumptions C01_constructors_exact.
+Theorem C01_negation_exact : Neg_exact.                 Proof. exact neg_exact. Qed.
+Print Assumptions C01_negation_exact.
+Theorem C01_addition_every_overload_exact : Add_family_exact.  Proof. exact add_family_exact. Qed.
+Print Assumptions C01_addition_every_overload_exact.
+Theorem C01_addition_overloads_agree : Add_family_agree.       Proof. exact add_family_agree. Qed.
+Print Assumptions C01_addition_overloads_agree.
+Theorem C01_subtraction_every_overload_exact : Sub_family_exact.  Proof. exact sub_family_exact. Qed.
+Print Assumptions C01_subtraction_every_overload_exact.
+Theorem C01_subtraction_overloads_agree : Sub_family_agree.    Proof. exact sub_family_agree. Qed.
+Print Assumptions C01_subtraction_overloads_agree.
+Theorem C01_multiplication_every_overload_exact : Mul_family_exact.  Proof. exact mul_family_exact. Qed.
+Print Assumptions C01_multiplication_every_overload_exact.
+Theorem C01_multiplication_overloads_agree : Mul_family_agree. Proof. exact mul_family_agree. Qed.
+Print Assumptions C01_multiplication_overloads_agree.
+Theorem C01_fused_forms_exact : Fused_exact.             Proof. exact fused_exact. Qed.
+Print Assumptions C01_fused_forms_exact.
